@@ -60,7 +60,7 @@ class DictWorld(HistoryWorld):
         if leg == 'ladder':
             # 'every finite map': maps whose tree is as deep as the key is wide (one fork per key bit on one path - keys 100..0, 0100..0,
             # 00100..0 ...); the cell chain is d+1 deep and d may be up to 1022
-            d = self.LADDER_DEPTHS[run_index % len(self.LADDER_DEPTHS)] + (run_index // len(self.LADDER_DEPTHS))
+            d = min(1022, self.LADDER_DEPTHS[run_index % len(self.LADDER_DEPTHS)] + (run_index // len(self.LADDER_DEPTHS)))
             return {'n': rng.choice([1023, 1023, max(d + 1, rng.choice([600, 800]))]), 'vk': 'u16', 'steps': d + 4, 'ladder': d, 'kser': False}
         n = rng.choice([1, 2, 3, 4, 5, 7, 8, 9, 16, 31, 32, 33, 64, 255, 256, 257, 267, 512, 1000, 1023, rng.randint(1, 1023)])
         return {'n': n, 'vk': rng.choice(['u16', 'u16', 'coins', 'cell', 'i8', 'u1', 'addr', 'ref3', 'addr_any']), 'mirror': rng.random() < 0.5, 'steps': rng.choice([4, 8, 16, 40]), 'kser': rng.random() < 0.12}
